@@ -339,6 +339,26 @@ Theorem C10_merge_sorted_linear_multi :
 Proof. exact lmerge_multi_sorted. Qed.
 Print Assumptions C10_merge_sorted_linear_multi.
 
+(* ---- the sortedness premise of the linear theorems is an INVARIANT (final round): at every step -- hence also in the state an
+   exception leaves behind -- the source is an order-preserving sub-sequence of the original source (any key policy, any input),
+   so both trees satisfy the premise again and a further MergeTo / MergeFrom on them is covered by the same theorems *)
+Theorem C10_merge_linear_source_order_preserved :
+  forall c multi src dst w shape n, subseq (lsrc_items (lrun c multi n (linit src dst w shape))) src.
+Proof. exact lmerge_source_order_preserved. Qed.
+Print Assumptions C10_merge_linear_source_order_preserved.
+
+Theorem C10_merge_linear_keeps_both_sorted :
+  forall c src dst w shape n, ksorted src -> ksorted dst ->
+    ksorted (lsrc_items (lrun c false n (linit src dst w shape))) /\ ksorted (ldst_items (lrun c false n (linit src dst w shape))).
+Proof. exact lmerge_keeps_both_sorted. Qed.
+Print Assumptions C10_merge_linear_keeps_both_sorted.
+
+Theorem C10_merge_linear_multi_keeps_both_sorted :
+  forall c src dst w shape n, ksle src -> ksle dst ->
+    ksle (lsrc_items (lrun c true n (linit src dst w shape))) /\ ksle (ldst_items (lrun c true n (linit src dst w shape))).
+Proof. exact lmerge_multi_keeps_both_sorted. Qed.
+Print Assumptions C10_merge_linear_multi_keeps_both_sorted.
+
 (* ---- pointer-level model of pvMergeFast's joining path (FastPtr.v) *)
 (* the separator leaves its leaf (TreeNode::Remove): the other items keep their order; only a copy-only item can make the
    remover throw; a movable separator is never copied (rotation to the back + relocation) *)
